@@ -15,6 +15,7 @@ var zzDecimalStrings = []string{"0", "-1", "1", "1.0", "1e0", "1000000", "1E6", 
 var zzDecimalIsInt = []bool{true, true, true, false, false, true, false, true, false, false}
 var zzDecimalInt = []int64{0, -1, 1, 1, 1, 1000000, 1000000, 9007199254740993, 0, -2}
 var zzDecimalFloat = []float64{0, -1, 1, 1, 1, 1000000, 1000000, 9007199254740993, 0.5, -2.5}
+
 // ("1_0" is left out: strconv.ParseFloat reads it as 10, its status as a decimal numeral is arguable)
 var zzNonNumerals = []string{"", "abc", "0x10", "0b1", " 1", "true", "1 ", "--1"}
 
